@@ -261,8 +261,8 @@ def check_memory(case, ctx):
 
 
 SUBS = [
-    Sub("read", check_read, strategy=read_case, examples={"quick": 200, "thorough": 2500}, shards={"quick": 8, "thorough": 16}, fuzz={"thorough": 150}),
-    Sub("memory", check_memory, strategy=memory_case, examples={"quick": 200, "thorough": 2500}, shards={"quick": 8, "thorough": 16}),
+    Sub("read", check_read, strategy=read_case, examples={"quick": 200, "thorough": 1200}, shards={"quick": 8, "thorough": 16}, fuzz={"thorough": 150}),
+    Sub("memory", check_memory, strategy=memory_case, examples={"quick": 200, "thorough": 1200}, shards={"quick": 8, "thorough": 16}),
 ]
 
 MANIFEST = dict(
